@@ -82,7 +82,15 @@ def main():
     s.add_argument("--seeds", type=int, default=24)
     s.set_defaults(fn=cmd_selftest)
     a = ap.parse_args()
-    sys.exit(a.fn(a))
+    try:
+        code = a.fn(a)
+    except SystemExit:
+        raise
+    except BaseException:  # noqa: BLE001 - a crash of the machinery is never a verdict (exit 1 is reserved)
+        import traceback
+        print("HARNESS-ERROR " + traceback.format_exc()[-3000:], file=sys.stderr)
+        code = 2
+    sys.exit(code)
 
 
 if __name__ == "__main__":
